@@ -33,10 +33,11 @@ static C14: checks::c14::C14 = checks::c14::C14;
 static C15: checks::csvimp::C15 = checks::csvimp::C15;
 static C16: checks::csvimp::C16 = checks::csvimp::C16;
 static C17: checks::csvimp::C17 = checks::csvimp::C17;
+static C18: checks::camt::C18 = checks::camt::C18;
 static C20: checks::c20::C20 = checks::c20::C20;
 
 fn registry() -> Vec<&'static dyn DynCheck> {
-    vec![&C01, &C02, &C03, &C04, &C06, &C08, &C09, &C10, &C11, &C12, &C13, &C14, &C15, &C16, &C17, &C20]
+    vec![&C01, &C02, &C03, &C04, &C06, &C08, &C09, &C10, &C11, &C12, &C13, &C14, &C15, &C16, &C17, &C18, &C20]
 }
 
 fn find(id: &str) -> &'static dyn DynCheck {
